@@ -1065,8 +1065,21 @@ impl CanonicalizeContext {
 					if let Some(child) = children[i].element() {
 						match self.clean_mathml(child) {
 							None => {
-								mathml.remove_child(child);
-								// don't increment 'i' because there is one less child now and so everything shifted left
+								if element_name == "mmultiscripts" {
+									// base and scripts are positional -- removing one would shift the others into the wrong slot
+									let placeholder = if i == 0 {
+										CanonicalizeContext::create_empty_element(&mathml.document())
+									} else {
+										create_mathml_element(&mathml.document(), "none")
+									};
+									children = mathml.children();
+									children[i] = ChildOfElement::Element(placeholder);
+									mathml.replace_children(children);
+									i += 1;
+								} else {
+									mathml.remove_child(child);
+									// don't increment 'i' because there is one less child now and so everything shifted left
+								}
 							},
 							Some(new_child) => {
 								let new_child_name = name(&new_child);
